@@ -81,7 +81,16 @@ Definition rcmp (oc : bool) (x y : bigrat) : res comparison :=
 Definition req (oc : bool) (x y : bigrat) : res bool :=
   do c <- rcmp oc x y; Ok (match c with Eq => true | _ => false end).
 
-Definition rat_is_integer (x : bigrat) : bool := is_eq (rden x) (Small 1).
+(* BigRat::is_integer since commit 19d36f9: den == 1, or the remainder of
+   num / den is zero (an unreduced fraction such as 6/2 is an integer too) *)
+Definition rat_is_integer (oc : bool) (x : bigrat) : bool :=
+  if is_eq (rden x) (Small 1) then true
+  else match divmod oc (rnum x) (rden x) with
+       | Ok (_, r) => is_eq r (Small 0)
+       | _ => false
+       end.
+(* before 19d36f9 *)
+Definition rat_is_integer_old (x : bigrat) : bool := is_eq (rden x) (Small 1).
 Definition rat_is_definitely_zero (x : bigrat) : bool := is_definitely_zero (rnum x).
 Definition rat_is_definitely_one (x : bigrat) : bool :=
   negb (is_neg (rsign x)) && is_definitely_one (rnum x) && is_definitely_one (rden x).
